@@ -13,7 +13,7 @@ pub struct Limits {
 
 pub fn limits(scale: Scale, tier: Tier) -> Limits {
     match (scale, tier) {
-        (Scale::Tiny, Tier::Quick) => Limits { max_n: 1100, big_n: 0, n_random: 2 },
+        (Scale::Tiny, Tier::Quick) => Limits { max_n: 520, big_n: 0, n_random: 1 },
         (Scale::Tiny, Tier::Thorough) => Limits { max_n: 2600, big_n: 0, n_random: 8 },
         (Scale::Mid, Tier::Quick) => Limits { max_n: 9000, big_n: 40_000, n_random: 6 },
         (Scale::Mid, Tier::Thorough) => Limits { max_n: 70_000, big_n: 300_000, n_random: 30 },
@@ -119,6 +119,9 @@ fn layouts(i: usize) -> Layout {
 pub fn plain_tree_specs(scale: Scale, tier: Tier, bits: u32, seed: u64) -> Vec<SeqSpec> {
     let lim = limits(scale, tier);
     let mut rng = Rng::derive(seed, "plain_tree_specs", bits as u64);
+    // interpreters, quick tier: keep the trees shallow (a 64-level tree costs minutes under Miri);
+    // wide values are the business of the native lanes and of the thorough tier
+    let bits = if scale == Scale::Tiny && tier == Tier::Quick { bits.min(20) } else { bits };
     let alphas = plain_alphabets(bits);
     let mut out = Vec::new();
     let mut k = rng.usize_below(1000);
@@ -300,6 +303,20 @@ pub fn huff_tree_specs(scale: Scale, tier: Tier, bits: u32, arity: usize, seed: 
         }
         l += stride;
     }
+    // two-branch shapes (two codewords per length): long codes with high bits set
+    {
+        let mut d = 4usize;
+        let dstride = if scale == Scale::Full { 3 } else { 6 };
+        loop {
+            let w = two_branch_weights(d);
+            let n: u64 = w.iter().sum();
+            if n as usize > deep_cap || (w.len() as u128) > type_max(bits).saturating_add(1) {
+                break;
+            }
+            out.push(SeqSpec { n: n as usize, alpha: Alpha::Dense(w.len()), dist: Dist::Exact(w), layout: layouts(d), seed: rng.u64() });
+            d += dstride;
+        }
+    }
     if lim.big_n > 0 {
         let b = lim.big_n.min(1_000_000);
         out.push(SeqSpec { n: b / 10 + 1, alpha: Alpha::Single(2), dist: Dist::Equal, layout: Layout::Sorted, seed: rng.u64() });
@@ -322,6 +339,13 @@ pub fn huff_tree_specs(scale: Scale, tier: Tier, bits: u32, arity: usize, seed: 
         });
     }
     out
+}
+
+/// an input whose code has two long branches with codewords of 25..27 bits (long codes whose most
+/// significant bits are set), n = 2.8 M
+pub fn long_two_branch_spec(seed: u64) -> SeqSpec {
+    let w = two_branch_weights(27);
+    SeqSpec { n: w.iter().sum::<u64>() as usize, alpha: Alpha::Dense(w.len()), dist: Dist::Exact(w), layout: Layout::Iid, seed }
 }
 
 /// the one input per arity whose longest code exceeds 32 bits (known finding D4)
